@@ -168,14 +168,62 @@ func ForcedHeader(t *rapid.T, maxWords int) []byte {
 	return b
 }
 
+// RepeatedFrame builds a datagram out of many copies of one small (possibly mutated) frame:
+// a decoder whose allocation is out of proportion to a small frame stays under any fixed
+// budget for one frame, but not for a datagram full of them.
+func RepeatedFrame(t *rapid.T, maxTotal int) []byte {
+	var f []byte
+	switch rapid.IntRange(0, 2).Draw(t, "rep.kind") {
+	case 0:
+		f = ForcedHeader(t, 6)
+	default:
+		for tries := 0; tries < 6; tries++ {
+			_, f = SeedEncoding(t)
+			if len(f) <= 64 {
+				break
+			}
+		}
+		if len(f) > 64 {
+			f = []byte{0x80, 201, 0, 1, 0, 0, 0, 1}
+		}
+	}
+	for i := rapid.IntRange(0, 2).Draw(t, "rep.nmut"); i > 0; i-- {
+		if len(f) > 4 {
+			off := rapid.IntRange(4, len(f)-1).Draw(t, "rep.off")
+			if rapid.Bool().Draw(t, "rep.wide") {
+				put16(f, off&^1, rapid.SampledFrom(hostile16).Draw(t, "rep.v16"))
+			} else {
+				f[off] = rapid.SampledFrom(hostile8).Draw(t, "rep.v8")
+			}
+		}
+	}
+	if len(f) == 0 {
+		return nil
+	}
+	n := maxTotal / len(f)
+	if n > 4000 {
+		n = 4000
+	}
+	if n < 1 {
+		n = 1
+	}
+	out := make([]byte, 0, n*len(f))
+	for i := 0; i < n; i++ {
+		out = append(out, f...)
+	}
+	return out
+}
+
 // HostileBytes draws a byte string from the mixture of DESIGN.md section 3.3 and names its kind.
 // big enables the >= 64 KiB classes.
 func HostileBytes(t *rapid.T, big bool) (kind string, b []byte) {
-	hi := 11
+	hi := 12
 	if big {
-		hi = 13
+		hi = 14
 	}
 	switch rapid.IntRange(0, hi).Draw(t, "bytes.kind") {
+	case 12:
+		return "repeated-frame", RepeatedFrame(t, rapid.SampledFrom([]int{1500, 8000, 65000}).Draw(t, "rep.total"))
 	case 0:
 		_, b = SeedEncoding(t)
 		return "valid", b
@@ -220,7 +268,7 @@ func HostileBytes(t *rapid.T, big bool) (kind string, b []byte) {
 		return "random", BytesN(t, rapid.IntRange(0, 64).Draw(t, "n"), "random")
 	case 11:
 		return "twcc-wrap-small", TWCCWrap(t, rapid.SampledFrom([]int{24, 40, 64, 128, 512, 1200, 1500}).Draw(t, "total"))
-	case 12:
+	case 13:
 		return "twcc-wrap-big", TWCCWrap(t, rapid.SampledFrom([]int{4096, 16384, 65532, 65536}).Draw(t, "total"))
 	default:
 		return "big-frame", BigFrame(t)
